@@ -63,6 +63,18 @@ impl Scenario for ZScenario {
 }
 
 fn main() {
+    {
+        // debugging aid: chainsim --debug-plan <replay or plan json>
+        let a: Vec<String> = std::env::args().collect();
+        if let Some(i) = a.iter().position(|x| x == "--debug-plan") {
+            let t = std::fs::read_to_string(&a[i + 1]).expect("read");
+            let v: serde_json::Value = serde_json::from_str(&t).expect("json");
+            let pv = if v.get("plan").is_some() { v["plan"].clone() } else { v };
+            let plan: mhost::MPlan = serde_json::from_value(pv).expect("plan");
+            mhost::debug_run(&plan);
+            return;
+        }
+    }
     let mut ctx = Ctx::from_args("chainsim");
     let prop = ctx.property.clone();
     let info = match prop.as_str() {
